@@ -129,6 +129,8 @@ int main(void)
       else if(IS("t_get")){ ret = getTensorValue(T[z(1)], z(2), z(3), z(4)); have_ret = 1; }
       else if(IS("t_fill")){ TensorSet(T[z(1)], f(2)); }
       else if(IS("l_init")){ initDVectorList(&L[z(1)]); }
+      else if(IS("l_new")){ /* a list created with its size: the slots are filled by the caller with empty vectors (NewDVector(.., 0)), the valid use */
+        size_t q; NewDVectorList(&L[z(1)], z(2)); for(q = 0; q < z(2); q++) NewDVector(&L[z(1)]->d[q], 0); }
       else if(IS("l_del")){ DelDVectorList(&L[z(1)]); L[z(1)] = NULL; }
       else if(IS("l_append")){ DVectorListAppend(L[z(1)], D[z(2)]); }
       else if(IS("s_new")){ NewStrVector(&S[z(1)], z(2)); { size_t i; for(i = 0; i < S[z(1)]->size; i++) setStr(S[z(1)], i, ""); } }
